@@ -542,7 +542,9 @@ func genAuth(c *ctx) *leanFile {
 	prefixRule, compatRule, dotGuard := false, false, false
 	if gb := findFunc(bc, "backendStorageCommon", "getBackendLocked"); gb != nil && gb.Body != nil {
 		src := authSrc(c.fset, gb.Body)
-		prefixRule = strings.Contains(src, "strings.HasPrefix(url, entry.url)")
+		// the entry's url, '/'-terminated for the comparison when stored without the slash (etcd), is a prefix of the looked-up url
+		prefixRule = strings.Contains(src, `entryUrl := entry.url if entryUrl[len(entryUrl)-1] != '/' { entryUrl += "/" } if strings.HasPrefix(url, entryUrl) { return entry }`) &&
+			strings.Contains(src, `if url[len(url)-1] != '/' { url += "/" }`)
 		compatRule = strings.Contains(src, `entry.url == ""`)
 	}
 	if gb := findFunc(bc, "BackendConfiguration", "GetBackend"); gb != nil && gb.Body != nil {
